@@ -14,7 +14,7 @@ CHECK = {
                     'the first resize of a table names a function explicitly (the default cstl_hash_mul cannot be logged)',
                     'relocations are recognised as consultations of the new geometry for keys of live elements'],
     'runs': [
-        {'harness': 'hash', 'mode': 'incr', 'sources': ['harness/hash.c'] + EX, 'configs': both(['dbg-asan'], ['dbg-asan', 'rel-asan'])},
+        {'harness': 'hash', 'mode': 'incr', 'sources': ['harness/hash.c'] + EX, 'configs': both(['dbg-asan'], ['dbg-asan', 'rel-asan', 'rel-plain']),},
     ],
 }
 
